@@ -18,5 +18,6 @@ for d in $DIRS; do
     if [ $rc -eq 1 ] && echo "$out" | grep -q "^VIOLATION property=$id"; then echo "$d: caught by $id"; else echo "$d: NOT caught by $id (rc=$rc)"; fail=1; fi
   done
   git -C "$REPO" checkout -- .
+  git -C "$REPO" clean -fdq kiki kiki_e2e_test 2>/dev/null
 done
 exit $fail
